@@ -143,6 +143,9 @@ func init() {
 			for _, n := range []int{0, 700, 3 * B} {
 				for _, j := range []uint{1, 3} {
 					emit(truncSeed{P: Params{"LZ", "HUFFMAN", B, 2, 32, -1, true, false}, Shape: "text", Len: n, Jobs: j, Stride: 1})
+					// headerless with the original size given to the reader (it must still insist on the end marker)
+					emit(truncSeed{P: Params{"LZ", "HUFFMAN", B, 2, 32, int64(n), true, false}, Shape: "text", Len: n, Jobs: j, Stride: 1})
+					emit(truncSeed{P: Params{"NONE", "NONE", B, 2, 0, int64(n), true, false}, Shape: "text", Len: n, Jobs: j, Stride: 1})
 					emit(truncSeed{P: Params{"NONE", "NONE", B, 2, 0, int64(n), false, false}, Shape: "random", Len: n, Jobs: j, Stride: 1})
 				}
 			}
